@@ -46,7 +46,7 @@ func init() {
 			"{early more_results=false}. distinct = distinct case description; non-trivial " +
 			"= at least one row in range or at least two regions",
 		Assumptions: []string{
-			"row keys and boundaries never contain eight consecutive 0xff (client's documented approximation for reversed scans)",
+			"random cases use row keys and boundaries of at most 3 bytes; rows with more than eight trailing 0xff right below a region boundary are played by a dedicated group (known finding)",
 			"simulator scan semantics follow DESIGN.md §7",
 		},
 		Plan: func(tier string) fw.Plan {
@@ -180,8 +180,62 @@ func c06Enumerate(c *fw.Ctx, stride int) {
 	}
 }
 
+// c06PaddedStart: a reversed scan that leaves a region continues from "the
+// nearest key below the region's start key", which the client approximates by
+// decrementing the last byte and appending eight 0xff. Rows between that
+// approximation and the boundary (k > 8 trailing 0xff) exist in the table and
+// lie in range.
+func c06PaddedStart(c *fw.Ctx) {
+	for _, k := range []int{1, 7, 8, 9, 12} {
+		for _, partials := range []bool{false, true} {
+			long := "a" + strings.Repeat("\xff", k)
+			sc := scanCase{Seed: int64(k), Rows: []string{"a", long, "b", "c"}, CellsPer: []int{1, 2, 1, 1}, Bounds: []string{"b"},
+				Start: "c", Reversed: true, Partials: partials, Servers: 1}
+			id := fmt.Sprintf("padded-start-%d-%v", k, partials)
+			c.Begin(id, sc)
+			model := sc.model()
+			cl, client := sc.setup(nil)
+			ctx, cancel := context.WithTimeout(context.Background(), 30*time.Second)
+			var got []*hrpc.Result
+			var err error
+			done := within(40*time.Second, func() {
+				got, err = runScanToEnd(client.Scan(sc.newScan(ctx, id)), 50)
+			})
+			cancel()
+			c.Eval(sc.sig(), true)
+			c.Count("reversed_scans_over_rows_with_long_ff_suffix", 1)
+			switch {
+			case !done:
+				c.Violate(id, "scan:stuck", "scan did not finish in 40s on a fault-free cluster: "+sc.sig(), sc)
+			case err != nil:
+				c.Violate(id, "scan:error", fmt.Sprintf("scan failed on a fault-free cluster: %v: %s", err, sc.sig()), sc)
+			default:
+				if f, d := compareScan(got, model, sc.Partials, false); f != "" {
+					// exactly the row above the padded start row missing, everything else right?
+					var without []modelRow
+					for _, m := range model {
+						if m.Row != long {
+							without = append(without, m)
+						}
+					}
+					if f2, _ := compareScan(got, without, sc.Partials, false); f2 == "" && k > 8 {
+						f = "scan:reversed-skips-row-above-padded-start"
+						d = fmt.Sprintf("reversed scan over the boundary \"b\" continued from \"a\"+8x0xff and never returned the row \"a\"+%dx0xff that lies in range", k)
+					}
+					c.Violate(id, f, d+" :: "+sc.sig(), sc)
+				}
+			}
+			within(5*time.Second, client.Close)
+			cl.Close()
+		}
+	}
+}
+
 func runC06(c *fw.Ctx) {
 	c06Enumerate(c, c.Pick(8, 1))
+	if c.Batch == 0 {
+		c06PaddedStart(c)
+	}
 	if !c.Quick() {
 		c.SetExhaustive()
 	}
